@@ -245,7 +245,47 @@ func verif_C14_roundtrip(fam int) {
 	}
 }
 
+// the cumulative distribution function has the density as its derivative: the
+// derivative that the automatic differentiation of Cdf(x) yields equals Pdf(x)
+// (real interpretation, interior of the support); and Cdf = exp(LogCdf)
+func verif_C14_cdf(fam int) {
+	f := families()[fam]
+	p := params(f, "p")
+	VerifAssume(f.valid(p))
+	xv := VerifFinite64("x")
+	VerifAssume(f.support(p, xv))
+	d, err := f.mk(Float64Type, p)
+	if err != nil {
+		return
+	}
+	type cdfer interface {
+		Cdf(r Scalar, x ConstScalar) error
+		LogCdf(r Scalar, x ConstScalar) error
+	}
+	c, ok := d.(cdfer)
+	if !ok {
+		return
+	}
+	x := NewReal64(xv)
+	x.SetVariable(0, 1, 1)
+	r := NewReal64(0)
+	if c.Cdf(r, x) != nil {
+		return
+	}
+	q := NewReal64(0)
+	if d.LogPdf(q, ConstFloat64(xv)) != nil {
+		return
+	}
+	VerifReach("cdf")
+	VerifAssertEqF(f.name+":d/dx-Cdf=Pdf", r.GetDerivative(0), math.Exp(q.GetFloat64()))
+	l := NewReal64(0)
+	if c.LogCdf(l, ConstFloat64(xv)) == nil {
+		VerifAssertEqF(f.name+":Cdf=exp(LogCdf)", r.GetFloat64(), math.Exp(l.GetFloat64()))
+	}
+}
+
 func init() {
+	VerifRegister("verif_C14_cdf", func(a []int) { verif_C14_cdf(a[0]) })
 	VerifRegister("verif_C14_formula", func(a []int) { verif_C14_formula(a[0], a[1]) })
 	VerifRegister("verif_C14_support", func(a []int) { verif_C14_support(a[0], a[1]) })
 	VerifRegister("verif_C14_ctor", func(a []int) { verif_C14_ctor(a[0], a[1]) })
